@@ -94,7 +94,47 @@ def _summ(owner, k, v):
         return (owner, k, "ref", id(v))
     if isinstance(v, (str, int, float, bool, tuple, frozenset, type(None))):
         return (owner, k, "val", short(repr(v), 60))
+    if (getattr(type(v), "__module__", "") or "").startswith("pyab_experiment") or hasattr(v, "__dict__") and not callable(v):
+        # an object kept at module / class level (e.g. a cached lexer): its class (SLY swaps it!) and simple attributes
+        try:
+            attrs = sorted((a, short(repr(x), 40)) for a, x in vars(v).items() if isinstance(x, (str, int, float, bool, type(None), list, tuple, dict)))
+        except TypeError:
+            attrs = []
+        return (owner, k, "obj", type(v).__name__, zlib.crc32(repr(attrs).encode()))
     return None
+
+
+# ---------------------------------------------------------------- process isolation
+def in_child(fn):
+    """run fn() in a forked child (pristine copy of this process) and return its picklable result"""
+    import pickle
+
+    r, w = os.pipe()
+    pid = os.fork()
+    if pid == 0:
+        code = 0
+        try:
+            os.close(r)
+            try:
+                out = ("ok", fn())
+            except BaseException as e:  # noqa
+                out = ("err", f"{type(e).__name__}: {e}")
+            with os.fdopen(w, "wb") as f:
+                pickle.dump(out, f)
+        except BaseException:  # noqa
+            code = 1
+        finally:
+            os._exit(code)
+    os.close(w)
+    with os.fdopen(r, "rb") as f:
+        data = f.read()
+    os.waitpid(pid, 0)
+    if not data:
+        raise HarnessFault("isolated child died without a result")
+    kind, val = pickle.loads(data)
+    if kind == "err":
+        raise HarnessFault("isolated child failed: " + val)
+    return val
 
 
 # ---------------------------------------------------------------- the explorer
@@ -110,19 +150,36 @@ class Spec:
         self.fresh = {}
         self.table = {}
         self.gfp0 = None
+        self.isolate = False  # True: every replay and every fresh-evaluator table runs in a forked child
 
     def prepare(self):
-        """per process: what a fresh evaluator of each text does (the differential oracle)"""
-        for k, t in self.texts.items():
-            b = impl.build(t)
-            self.fresh[k] = b[0] == "ok"
-            if b[0] == "ok":
-                self.table[k] = [self._norm(impl.call(b[1], x)) for x in self.inputs]
-                # a second fresh evaluator must agree (purity of construction)
-                b2 = impl.build(t)
-                if [self._norm(impl.call(b2[1], x)) for x in self.inputs] != self.table[k]:
-                    raise HarnessFault(f"two fresh evaluators of text {k} disagree - differential oracle unusable")
+        """what a fresh evaluator of each text does (the differential oracle).  Always computed in a
+        forked child, one per text, so that this process never executes library code and stays a
+        pristine image to fork replays from."""
         self.gfp0 = global_fingerprint()
+        self.prep_violations = []
+        for k, t in self.texts.items():
+            ok, tab, note = in_child(lambda t=t: self._fresh_one(t))
+            self.fresh[k] = ok
+            if ok:
+                self.table[k] = tab
+            if note:
+                self.prep_violations.append({"kind": "life:two-fresh-evaluators", "history": [["new", 0, k], ["new", 1, k]], "text": t, "why": note})
+
+    def _fresh_one(self, t):
+        b = impl.build(t)
+        if b[0] != "ok":
+            b2 = impl.build(t)
+            note = None if b2[0] != "ok" else "constructing an evaluator from this text raised the first time and succeeded the second time"
+            return False, None, note
+        tab = [self._norm(impl.call(b[1], x)) for x in self.inputs]
+        b2 = impl.build(t)  # a second evaluator built from the same text in the same process must agree
+        note = None
+        if b2[0] != "ok":
+            note = f"a second evaluator built from the same text raised {b2[1]} although the first construction succeeded"
+        elif [self._norm(impl.call(b2[1], x)) for x in self.inputs] != tab:
+            note = "two evaluators built from the same text in one process disagree on the probe inputs"
+        return True, tab, note
 
     @staticmethod
     def _norm(out):
@@ -206,6 +263,45 @@ class Spec:
 _SPEC = None
 
 
+def _model_after(spec, hist):
+    model = (None,) * spec.slots
+    for op in hist:
+        model, _ = spec.step_model(model, op)
+    return model
+
+
+def _one_transition(spec, hist, trace, op):
+    """replay hist, execute op (and its re-issue), evaluate the invariant.  Picklable result."""
+    objs, model0, outs = spec.run_history(hist, trace)
+    n_tr = 1
+    got = spec.apply(objs, op)
+    model1, want = spec.step_model(model0, op)
+    viol = None
+    if op[0] == "call":
+        if got != want:
+            viol = f"call returned {got[1]!r}; a fresh evaluator of text {model0[op[1]]!r} returns {want[1]!r}"
+    elif got[0] != want:
+        viol = f"{op[0]}({op[2]}) outcome {got}; a fresh construction from that text {'succeeds' if want == 'ok' else 'raises'}"
+    bad = spec.invariant(objs, model1) if viol is None else []
+    if bad and viol is None:
+        s, k, xi, g, w = bad[0]
+        viol = f"after {op}: evaluator in slot {s} (last accepted text {k!r}) returns {g!r} for input {xi}; a fresh evaluator of that text returns {w!r}"
+    if viol is None and spec.reissue and op[0] != "call":
+        n_tr += 1
+        got2 = spec.apply(objs, op)
+        model2, want2 = spec.step_model(model1, op)
+        if got2[0] != want2:
+            viol = f"re-issuing {op[0]}({op[2]}) gave {got2}, the first time {got}: {'must raise every time' if want2 == 'raise' else 'must be a no-op'}"
+        else:
+            bad = spec.invariant(objs, model2)
+            if bad:
+                s, k, xi, g, w = bad[0]
+                viol = f"after re-issuing {op}: slot {s} (text {k!r}) returns {g!r} for input {xi}, fresh: {w!r}"
+    key = None if viol else spec.key(objs, model1)
+    return {"viol": viol, "got": got, "key": key, "outs": outs + [got], "n_tr": n_tr,
+            "probes": sum(1 for m in model1 if m is not None) * len(spec.inputs)}  # fmt: skip
+
+
 def _expand(units):
     """worker: expand frontier states.  unit = (history, trace)"""
     spec = _SPEC
@@ -218,63 +314,41 @@ def _expand(units):
         cov[k] = cov.get(k, 0) + n
 
     for hist, trace in units:
-        _objs, model, _ = spec.run_history(hist, trace)
+        model = _model_after(spec, hist)
         for op in spec.enabled(model):
-            objs, model0, outs = spec.run_history(hist, trace)
-            add("transitions")
-            got = spec.apply(objs, op)
-            model1, want = spec.step_model(model0, op)
-            viol = None
-            if op[0] == "call":
-                if got != want:
-                    viol = f"call returned {got[1]!r}; a fresh evaluator of text {model0[op[1]]!r} returns {want[1]!r}"
-            elif got[0] != want:
-                viol = f"{op[0]}({op[2]}) outcome {got}; a fresh construction from that text {'succeeds' if want == 'ok' else 'raises'}"
-            bad = spec.invariant(objs, model1) if viol is None else []
-            add("probes", sum(1 for m in model1 if m is not None) * len(spec.inputs))
-            if bad and viol is None:
-                s, k, xi, g, w = bad[0]
-                viol = f"after {op}: evaluator in slot {s} (last accepted text {k!r}) returns {g!r} for input {xi}; a fresh evaluator of that text returns {w!r}"
-            if viol is None and spec.reissue and op[0] != "call":
-                add("transitions")
-                got2 = spec.apply(objs, op)
-                model2, want2 = spec.step_model(model1, op)
-                if got2[0] != want2:
-                    viol = f"re-issuing {op[0]}({op[2]}) gave {got2}, the first time {got}: {'must raise every time' if want2 == 'raise' else 'must be a no-op'}"
-                else:
-                    bad = spec.invariant(objs, model2)
-                    if bad:
-                        s, k, xi, g, w = bad[0]
-                        viol = f"after re-issuing {op}: slot {s} (text {k!r}) returns {g!r} for input {xi}, fresh: {w!r}"
-                # state reached after the re-issue is explored through its own history
-            if viol:
+            if spec.isolate:
+                r = in_child(lambda: _one_transition(spec, hist, trace, op))
+            else:
+                r = _one_transition(spec, hist, trace, op)
+            add("transitions", r["n_tr"])
+            add("probes", r["probes"])
+            if r["viol"]:
                 add("violating_cases")
                 if len(res["viol"]) < 6:
-                    res["viol"].append({"kind": "life:" + op[0], "history": [list(h) for h in hist] + [list(op)], "why": viol})
+                    res["viol"].append({"kind": "life:" + op[0], "history": [list(h) for h in hist] + [list(op)], "why": r["viol"],
+                                        "isolated": spec.isolate})  # fmt: skip
                 continue
+            got = r["got"]
             res["outcomes"].append(f"{op[0]}:{got[0]}:{got[1] if len(got) > 1 else ''}"[:60])
-            key = spec.key(objs, model1)
-            if not key[2]:
+            if not r["key"][2]:
                 add("global_state_changed")
-            res["next"].append((key, hist + [op], outs + [got]))
+            res["next"].append((r["key"], hist + [op], r["outs"]))
     return res
 
 
-def explore(res, spec, tag="xlife"):
-    """level-synchronous BFS; returns number of states"""
-    global _SPEC
-    _SPEC = spec
-    spec.prepare()
+def _bfs(res, spec):
     init_key = ((None,) * spec.slots, (None,) * spec.slots, True)
     seen = {init_key}
     frontier = [([], [])]
     depth = 0
     while frontier and depth < spec.depth:
         nxt = []
-        for w in pmap(_expand, frontier, chunk=max(1, min(8, len(frontier) // 32 or 1))):
+        for w in pmap(_expand, frontier, chunk=max(1, min(8, len(frontier) // 32 or 1)), inline_ok=False):
             new = w.pop("next")
             res.merge_worker(w)
             for key, hist, trace in new:
+                if spec.isolate:
+                    key = key[:2] + (True,)  # each replay started from a pristine process image
                 if key not in seen:
                     seen.add(key)
                     nxt.append((hist, trace))
@@ -283,7 +357,35 @@ def explore(res, spec, tag="xlife"):
         depth += 1
         res.set(f"states_at_depth_{depth}", len(nxt))
         frontier = nxt
-    res.set("states", len(seen))
+    return len(seen), depth, len(frontier)
+
+
+def explore(res, spec, tag="xlife"):
+    """level-synchronous BFS; returns number of states.  If the library turns out to keep state at
+    module level (fingerprint change, or replays that are not reproducible inside one process) the
+    whole search is redone with every replay in a forked child of a pristine process image."""
+    global _SPEC
+    _SPEC = spec
+    saved = (dict(res.cov), list(res.violations), set(res.outcomes), list(res.samples))
+    try:
+        spec.prepare()
+        n, depth, left = _bfs(res, spec)
+        hidden = bool(res.cov.get("global_state_changed"))
+        why = "module-level state of pyab_experiment changed during a replay"
+    except HarnessFault as e:
+        hidden, why = True, f"in-process replays are not reproducible ({short(str(e), 200)})"
+    for v in getattr(spec, "prep_violations", []):
+        res.violation(v)
+    if hidden:
+        res.cov, res.violations, res.outcomes, res.samples = dict(saved[0]), list(saved[1]), set(saved[2]), list(saved[3])
+        spec.isolate = True
+        spec.fresh, spec.table, spec.gfp0 = {}, {}, None
+        spec.prepare()
+        for v in spec.prep_violations:
+            res.violation(v)
+        n, depth, left = _bfs(res, spec)
+        res.set("isolated_mode", why)
+    res.set("states", n)
     res.set("depth_completed", depth)
-    res.set("frontier_left", len(frontier))
-    return len(seen)
+    res.set("frontier_left", left)
+    return n
